@@ -1855,7 +1855,16 @@ sexp sexp_expt_op (sexp ctx, sexp self, sexp_sint_t n, sexp x, sexp e) {
     else
       res = sexp_make_flonum(ctx, pow(10.0, 1e100));   /* +inf.0 */
   } else if (sexp_bignump(x)) {
-    res = sexp_bignum_expt(ctx, x, e);
+    if (sexp_fixnump(e))
+      res = sexp_bignum_expt(ctx, x, e);
+    else if (sexp_flonump(e))
+      res = sexp_make_flonum(ctx, pow(sexp_bignum_to_double(x), sexp_flonum_value(e)));
+#if SEXP_USE_RATIOS
+    else if (sexp_ratiop(e))
+      res = sexp_make_flonum(ctx, pow(sexp_bignum_to_double(x), sexp_ratio_to_double(ctx, e)));
+#endif
+    else
+      res = sexp_type_exception(ctx, self, SEXP_FIXNUM, e);
   } else {
 #endif
   if (sexp_fixnump(x))
